@@ -231,10 +231,10 @@ class SymNP:
             return x._np_unary(fsym, fnp, fpy)
         return fnp(x)
 
-    def sqrt(self, x):
+    def sqrt(self, x, dtype=None, **kw):
         return self._unary(x, sym_sqrt, lambda a: sym_sqrt(a) if isinstance(a, (int, float, Fraction)) else _np.sqrt(a), sym_sqrt)
 
-    def exp(self, x):
+    def exp(self, x, dtype=None, **kw):
         return self._unary(x, sym_exp, _np.exp)
 
     def ceil(self, x):
@@ -442,6 +442,12 @@ class SymNP:
             return operator.index(v) if isinstance(v, Sym) else v
 
         return _np.pad(x, conc(pad_width), mode=mode, **kw)
+
+    def indices(self, dimensions, dtype=int, **kw):
+        import operator
+
+        dims = tuple(operator.index(d) if isinstance(d, Sym) else d for d in dimensions)
+        return _np.indices(dims, dtype=dtype, **kw)
 
     def isscalar(self, x):
         return isinstance(x, (Sym, SymBool)) or _np.isscalar(x)
